@@ -192,7 +192,9 @@ def calls_of_trace(events):
     for (_, e) in events:
         if e["op"] in ("reset", "end"):
             continue
-        c = {k: v for k, v in e.items() if k not in ("obs", "ret", "panic", "same", "t", "text", "missed")}
+        c = {k: v for k, v in e.items() if k not in ("obs", "ret", "panic", "same", "t", "msg", "missed", "direct", "mirror")}
+        if e.get("mirror"):
+            c["mirror"] = True
         calls.append(c)
     return calls
 
@@ -351,6 +353,8 @@ def plan_c05(run, prop, tier):
     # clones in the product: the allocator position and the issued ids must survive clone()
     e2_product(run, acc, "A3", [(2, 4, 0), (1, 3, 1)], extra_ops=("clone",))
     e3_drive(run, acc, twin_plan(tier, vlib.seed()), label="E3 twins")
+    e3_drive(run, acc, [dict(profile="script", n=2, cap=64, steps=2500, seed=vlib.seed() * 100 + 71, window=12),
+                        dict(profile="merge", n=2, cap=32, steps=1200, seed=vlib.seed() * 100 + 31, window=12)], label="E3 scripts and merges")
     return acc
 
 
@@ -594,6 +598,12 @@ def plan_script(run, prop, tier):
     if tier == "thorough":
         jobs.append(("programs <=5 commands, ids {0,1}, var {x}", cfg_scriptgen(5, 5, [0, 1], ["x"], ["foo"], ["CA-FE"]), [(2, 5), (3, 9)], 1))
         jobs.append(("programs <=4 commands, ids {0,2,3}, vars {x,y}", cfg_scriptgen(6, 4, [0, 2, 3], ["x", "y"], ["foo", "b"], datas), [(2, 6)], 1))
+    s_ = vlib.seed()
+    sp = [dict(profile="script", n=2, cap=64, steps=2500, seed=s_ * 100 + 71, window=12),
+          dict(profile="script", n=16, cap=256, steps=2000, seed=s_ * 100 + 72, window=30)]
+    if tier == "thorough":
+        sp += [dict(profile="script", n=n, cap=cap, steps=6000, seed=s_ * 1000 + 700 + i, window=w) for i, (n, cap, w) in enumerate([(1, 64, 8), (3, 128, 16), (4, 256, 24), (8, 200, 40)])]
+    e3_drive(run, acc, sp, label="E3 scripts on graphs with history")
     for name, cfg, runs, stride in jobs:
         path, cached = vlib.emit_ts(run, "ScriptGen", cfg, workers=8, timeout=3000)
         for k, (n, cap) in enumerate(runs):
@@ -699,12 +709,12 @@ def _norm_event(e, observable_only=True):
     """what must be identical across replays and configurations: the call, its return value, and what every handle shows"""
     if e["op"] in ("reset", "end"):
         return None
-    x = {k: v for k, v in e.items() if k not in ("obs", "t", "same", "text", "direct")}
+    x = {k: v for k, v in e.items() if k not in ("obs", "t", "same", "msg", "direct")}
     if e["op"] == "new":
         x.pop("n", None)
         x.pop("cap", None)
-    if "text" in e and e.get("ret") == "err":
-        x["text"] = e["text"]                        # error texts are results too (merge names the missed vertices)
+    if "msg" in e and e.get("ret") == "err":
+        x["msg"] = e["msg"]                        # error texts are results too (merge names the missed vertices)
     obs = []
     for o in e.get("obs", []):
         if "broken" in o:
